@@ -12,7 +12,7 @@ def tableOk : Bool :=
   decide ((Gen.shSafeRanges.map fun r => r.2 + 1 - r.1).sum ≤ 512) &&
   Gen.shSafeRanges.all fun r => (List.range' r.1 (r.2 + 1 - r.1)).all shLiteralNat
 
-theorem tableOk_holds : tableOk = true := by decide
+theorem tableOk_holds : tableOk = true := by decide +kernel
 
 theorem safe_sub_literal_of (h : tableOk = true) (n : Nat) (hs : isSafeNat n = true) :
     shLiteralNat n = true := by
@@ -92,6 +92,8 @@ theorem shLex_sgl_repl (cs : Str) (hn : ∀ c ∈ cs, c ≠ nul) (cur tail : Str
 
 /-- no NUL anywhere in the argument list -/
 def NoNul (args : List Str) : Prop := ∀ a ∈ args, ∀ c ∈ a, c ≠ nul
+
+instance (args : List Str) : Decidable (NoNul args) := by unfold NoNul; infer_instance
 
 theorem shLex_quote (a : Str) (hn : ∀ c ∈ a, c ≠ nul) (tail : Str) :
     shLex .unq false [] (shQuote a ++ tail) = shLex .unq true a tail := by
